@@ -18,12 +18,12 @@ import os, sys, re, json, subprocess, tempfile, shutil, time
 import vlib
 from vlib import hx, hxl
 sys.path.insert(0, os.path.dirname(os.path.dirname(os.path.abspath(__file__))))
-import translate_tracepush, translate_callgraph
+import translate_tracepush, translate_callgraph, translate_tailpos
 
 ID = 'C10'
 COMPONENTS = ['tracelen']
 THEOREMS = ['C10_handler_words_balanced', 'C10_handler_words_balanced_sound', 'C10_handler_gain_bounded',
-            'C10_eval_callgraph_acyclic', 'C10_tracelen_invariant', 'C10_dec_no_underflow',
+            'C10_eval_callgraph_acyclic', 'C10_tail_positions_spec', 'C10_tracelen_invariant', 'C10_dec_no_underflow',
             'C10_len_zero_at_end', 'C10_get_stack_trace_pop_ok', 'C10_len_never_exceeds',
             'C10_overflow_trace_exceeds_limit', 'C10_tracelen_nonvacuous',
             'C10_limit_monotone', 'C10_limit_monotone_outcome', 'C10_depth_never_exceeds',
@@ -45,7 +45,11 @@ def translate_graph(repo):
     return translate_callgraph.main(repo, os.path.join(vlib.COQ, 'Gen', 'EvalCallGraph.v'))
 
 
-TRANSLATORS = [translate_words, translate_graph]
+def translate_tail(repo):
+    return translate_tailpos.main(repo, os.path.join(vlib.COQ, 'Gen', 'TailPos.v'))
+
+
+TRANSLATORS = [translate_words, translate_graph, translate_tail]
 
 
 # ================================================================ DepthSem programs
@@ -479,6 +483,48 @@ def families(d):
     return F
 
 
+# ---- the recursive call in every syntactic position of the function body, with and without `tailstrict`.
+# Tail positions are the ones analyze.rs passes `can_be_tailstrict` through (T: tools/translate_tailpos.py):
+# the function body itself, then/else of `if`, the body of `local`, the body of `assert`.  Only there does
+# `tailstrict` legitimately keep no frame.  (name, template, expected value as a function of d, tail?)
+POSITIONS = [
+    ('else-branch', 'if n == 0 then 0 else {R}', lambda d: '0', True),
+    ('then-branch', 'if n != 0 then {R} else 0', lambda d: '0', True),
+    ('nested-if', 'if n == 0 then 0 else if n < 0 then 1 else {R}', lambda d: '0', True),
+    ('local-body', 'if n == 0 then 0 else local v = n; {R}', lambda d: '0', True),
+    ('assert-body', 'if n == 0 then 0 else assert n > 0; {R}', lambda d: '0', True),
+    ('if-cond', 'if n == 0 then true else if {R} then true else false', lambda d: 'true', False),
+    ('binary-lhs', 'if n == 0 then 0 else {R} + 1', lambda d: '%d' % d, False),
+    ('binary-rhs', 'if n == 0 then 0 else 1 + {R}', lambda d: '%d' % d, False),
+    ('and-rhs', 'if n == 0 then true else true && {R}', lambda d: 'true', False),
+    ('or-rhs', 'if n == 0 then false else false || {R}', lambda d: 'false', False),
+    ('unary', 'if n == 0 then true else !{R}', lambda d: 'true' if d % 2 == 0 else 'false', False),
+    ('array-elem', 'if n == 0 then 0 else [{R}][0]', lambda d: '0', False),
+    ('object-field', 'if n == 0 then 0 else {{ a: {R} }}.a', lambda d: '0', False),
+    ('call-arg', 'if n == 0 then 0 else id({R})', lambda d: '0', False),
+    ('index-expr', 'if n == 0 then 0 else [0][{R}]', lambda d: '0', False),
+    ('index-target', 'if n == 0 then [7] else [{R}[0]]', lambda d: '[7]', False),
+    ('local-binding', 'if n == 0 then 0 else local v = {R}; v', lambda d: '0', False),
+    ('assert-cond', 'if n == 0 then true else assert {R}; true', lambda d: 'true', False),
+    ('paren', 'if n == 0 then 0 else ({R})', lambda d: '0', False),
+    ('comprehension', 'if n == 0 then 0 else [{R} for i in [1]][0]', lambda d: '0', False),
+    ('if-cond-in-binding', 'if n == 0 then true else local v = if {R} then true else false; v', lambda d: 'true', False),
+]
+
+
+def position_family(pos, tailstrict, d, endless=False):
+    name, tmpl, exp, tail = pos
+    rec = ('f(n + 1)' if endless else 'f(n - 1)') + (' tailstrict' if tailstrict else '')
+    body = tmpl.format(R=rec)
+    if endless:
+        body = body.replace('n == 0', 'n < 0').replace('n != 0', 'n >= 0')
+    src = 'local id(x) = x, f(n) = %s; f(%d)' % (body, d)
+    f = fam('pos-%s%s' % (name, '-tailstrict' if tailstrict else ''), src, exp(d), depthful=True, infinite=endless)
+    f['genuine_tail'] = tail and tailstrict
+    f['positional'] = True
+    return f
+
+
 def cyclic_programs():
     F = []
     F.append(fam('self-local', 'local a = a; a', None, cyc=1))
@@ -546,8 +592,12 @@ def canary(run, impl_exe):
     for name, p in shape_programs(3):
         if name.startswith('infinite'):
             progs.append(fam('ds-' + name, js_prog(p), None, infinite=True))
+    for pos in POSITIONS:
+        for ts in (False, True):
+            if not (pos[3] and ts):      # an endless tailstrict tail call legitimately loops without frames
+                progs.append(position_family(pos, ts, 1, endless=True))
     cases = [('y%d' % i, 'eval', ['stack=%x' % 30, src_field(f['src'])]) for i, f in enumerate(progs)]
-    res = vlib.run_sharded(impl_exe, [vlib.impl_line(c) for c in cases], timeout=90, shards=len(cases))
+    res = vlib.run_sharded(impl_exe, [vlib.impl_line(c) for c in cases], timeout=90, shards=min(len(cases), 2 * vlib.NCPU))
     ok = True
     for (cid, _, _), f in zip(cases, progs):
         r = res.get(cid, 'NOOUTPUT')
@@ -576,6 +626,15 @@ def check_sweep(run, impl_exe, cli, rng, tier, stops=True):
             else:
                 lim.update(rng.sample(LIMITS, 6))
             jobs.append((f, d, sorted(x for x in lim if 0 <= x)))
+    for d in ((40, 150) if tier == 'quick' else (7, 40, 150, 600)):
+        for pos in POSITIONS:
+            for ts in (False, True):
+                f = position_family(pos, ts, d)
+                lims = set([5, 30, d // 3, d - 1, d, d + 6, 3 * d + 12, 2000] + rng.sample(range(1, max(2, d)), 2))
+                jobs.append((f, d, sorted(x for x in lims if x >= 1)))
+    for pos in POSITIONS:       # a genuine tail call keeps no frame: any depth runs under a small limit
+        if pos[3]:
+            jobs.append((position_family(pos, True, 20000), 20000, [5, 30, 500]))
     for f in cyclic_programs():
         if f['infinite'] and not stops:
             continue
@@ -652,6 +711,8 @@ def check_sweep(run, impl_exe, cli, rng, tier, stops=True):
                 text = vlib.uncps(itext)
                 if f['expect'] is not None and text != f['expect']:
                     run.violation('wrong-value-under-limit', '%s evaluates to %s, expected %s' % (where, text[:60], f['expect']), replay)
+                if f.get('positional') and not f['genuine_tail'] and s <= d:
+                    run.violation('limit-not-enforced:' + f['name'], '%s: a recursion of depth %d whose recursive call is not a tailstrict tail call succeeds under a limit of %d frames' % (where, d, s), replay)
                 if first_ok is None:
                     first_ok = (s, text)
                 elif text != first_ok[1]:
@@ -660,13 +721,15 @@ def check_sweep(run, impl_exe, cli, rng, tier, stops=True):
             else:  # so
                 if first_ok is not None:
                     run.violation('limit-not-monotone', '%s overflows although it succeeded under stack=%d' % (where, first_ok[0]), replay)
-                if f['flat']:
+                if f.get('genuine_tail') and s >= 5:
+                    run.violation('tail-call-overflows:' + f['name'], '%s: a tailstrict call in tail position keeps no frame, yet the program overflows' % where, replay)
+                elif f['flat']:
                     run.violation('flat-loop-counts-as-depth:' + f['name'], '%s: a size-%d program of constant nesting depth overflows' % (where, d), replay)
                 elif s >= 3 * d + 12:
                     run.violation('overflow-far-above-depth', '%s: overflow although the limit exceeds three frames per level' % where, replay)
                 run.nontrivial.add((f['name'], d, 'so'))
         if not f['cycle'] and not f['infinite'] and not f['flat']:
-            if first_ok is not None and f['depthful'] and d >= 9 and first_ok[0] < d // 2:
+            if first_ok is not None and f['depthful'] and not f.get('genuine_tail') and d >= 9 and first_ok[0] < d // 2:
                 run.violation('limit-not-enforced', '%s (depth %d) already succeeds under stack=%d: nested frames are not counted' % (f['name'], d, first_ok[0]),
                               {'kind': 'src', 'name': f['name'], 'depth': d, 'stack': first_ok[0], 'source': f['src']})
             thresholds.setdefault(f['name'], []).append((d, first_ok[0] if first_ok else None))
@@ -752,7 +815,8 @@ def check(run):
                   'a handler is abstracted to the word of states it pushes; which words are possible is read from the source text by tools/translate_tracepush.py (textual reader: macros, trait objects and calls through other receivers than self are not followed)',
                   'DepthSem counts at least as many frames as the evaluator on its core (checked per case, not proved): model succeeds under L => implementation succeeds under L; implementation succeeds under s => model depth <= %d*s+%d' % (RATIO, SLACK),
                   'memory and time exhaustion are outside the model; the deep-recursion run uses a wall-clock cap']
-    for name, tr in (('T:handler push trees translated from eval/*.rs', translate_words), ('T:call graph translated from eval/*.rs', translate_graph)):
+    for name, tr in (('T:handler push trees translated from eval/*.rs', translate_words), ('T:call graph translated from eval/*.rs', translate_graph),
+                     ('T:tail-position flags translated from analyze.rs', translate_tail)):
         try:
             st = tr(vlib.REPO)
             run.add_obligation(name, True)
